@@ -3,6 +3,8 @@ from __future__ import annotations
 
 import z3
 
+from contracts.lib import is_lock
+
 from pyvc.api import (FnCheck, LoopSpec, Pure, Inline, register, Build, V, Val, SeqVal, IntS, RealS, BoolS, StrS, NONE,
                       Raise, Unsupported, fresh, vany, vint, vreal, vbool, vstr, vref, as_int, unbox_as, truthy, field)
 
@@ -22,14 +24,14 @@ class SnapshotHooks:
         self.mdib_paths = mdib_paths
 
     def on_with_enter(self, ex, st, key, cm, node):
-        if key.endswith('mdib_lock'):
+        if is_lock(key, 'mdib_lock'):
             d = st.ghost.get('depth', 0)
             if d == 0:
                 st.ghost['epoch'] = st.ghost.get('epoch', 0) + 1
             st.ghost['depth'] = d + 1
 
     def on_with_exit(self, ex, st, key, cm, node, sig):
-        if key.endswith('mdib_lock'):
+        if is_lock(key, 'mdib_lock'):
             st.ghost['depth'] = st.ghost.get('depth', 0) - 1
             if st.ghost['depth'] == 0:
                 # a table's own container (mutated in place by later commits) must not leave the section: only copies
@@ -295,4 +297,24 @@ from contracts import C02 as _c02   # noqa: E402
 @register
 class CommitQueuesCopiesOfStates(_c02.UpdateCorrespondingStateNotInTx):
     id = 'C07.descriptor_commit_never_writes_the_stored_state'
+    prop = 'C07'
+
+
+# The snapshot argument also rests on (a) copy-on-write: a transaction getter hands out mk_copy() of the stored state - a
+# copy that shares no nested data with the stored object, so a handler that serialises after the lock still sees the
+# committed values - and (b) every commit, of every transaction kind, holding mdib_lock from the creation of the
+# transaction to the publication of its result. Both are under contract elsewhere (C03.mk_copy, C02.transaction_manager);
+# they are re-checked under C07 because a change to either breaks this property first.
+from contracts import C03 as _c03   # noqa: E402
+
+
+@register
+class CopyOnWriteIsDeep(_c03.MkCopy):
+    id = 'C07.copy_on_write_shares_nothing'
+    prop = 'C07'
+
+
+@register
+class EveryCommitHoldsMdibLock(_c02.TransactionManager):
+    id = 'C07.every_commit_holds_mdib_lock'
     prop = 'C07'
